@@ -104,6 +104,14 @@ Theorem C10_shape_partial : forall w cs, separated cs -> codes_ok cs ->
 Proof. exact chunks_shape. Qed.
 Print Assumptions C10_shape_partial.
 
+(* two chunk lists with the same code texts whose white-space runs agree modulo blanks at line edges (same
+   position flags and indents) give the same output text; missing for C10's re-indentation clause: that
+   re-indenting the input changes the walk's chunk list only in this way (lexer + parser + walk) *)
+Theorem C10_reindent_partial : forall w cs1 cs2, Forall2 chunk_equiv cs1 cs2 ->
+  chunks_text (fmt_spaces w) cs1 = chunks_text (fmt_spaces w) cs2.
+Proof. exact chunks_reindent. Qed.
+Print Assumptions C10_reindent_partial.
+
 (* the hypotheses are satisfiable: `do` NL NL `x` at depth 1, width 2 *)
 Example C10_chunks_nonvacuous :
   let nl := mkTok CNewline 0 [NL] [NL] in
